@@ -1,6 +1,7 @@
 """Generic visitor pattern implementation for Python objects."""
 
 import enum
+from collections import UserList
 import weakref
 
 
@@ -148,10 +149,12 @@ class Visitor(object):
             ret = visitorFunc(self, obj, *args, **kwargs)
             if ret == False or (ret is None and self.defaultStop):
                 return
-        if hasattr(obj, "__dict__") and not isinstance(obj, enum.Enum):
-            self.visitObject(obj, *args, **kwargs)
-        elif isinstance(obj, list):
+        if isinstance(obj, (list, UserList)):
+            # UserList: the LazyList of tables opened with lazy=True, whose
+            # __dict__ only holds the not yet decoded items
             self.visitList(obj, *args, **kwargs)
+        elif hasattr(obj, "__dict__") and not isinstance(obj, enum.Enum):
+            self.visitObject(obj, *args, **kwargs)
         elif isinstance(obj, dict):
             self.visitDict(obj, *args, **kwargs)
         else:
